@@ -101,8 +101,8 @@ theorem deVariantId_quote (names : List Bytes) (k : Bytes) (hu : Spec.Utf8.valid
 include hext hflt hap in
 /-- enums -/
 theorem agree_enum (vs : List (Bytes × VariantShape)) (f t : Nat) (v : JV) (hv : VOK v) (hd : DepthOK env t v)
-    (hp : ∀ kvs, v = .obj kvs → ∀ nm sh, (nm, sh) ∈ vs → ∀ kv ∈ kvs,
-      Agree1 (dePayload env (t + 1) (deTyped env f) sh) (payloadFV cfg' ext' sh kv.2) (T ext kv.2))
+    (hp : ∀ k x kvs, v = .obj ((k, x) :: kvs) → ∀ sh, (k, sh) ∈ vs →
+      Agree1 (dePayload env (t + 1) (deTyped env f) sh) (payloadFV cfg' ext' sh x) (T ext x))
     (hex : ∀ k x, v = .obj [(k, x)] → ∀ sh, (k, sh) ∈ vs →
       FromValue.shapeDe cfg' ext' sh (some x) = payloadFV cfg' ext' sh x) :
     Agree1 (deTyped env (f + 1) t (.enum_ vs)) (FromValue.fromValue cfg' ext' (.enum_ vs) v) (T ext v) := by
@@ -238,20 +238,19 @@ theorem agree_enum (vs : List (Bytes × VariantShape)) (f t : Nat) (v : JV) (hv 
           rw [hvi] at hrun
           simp only at hrun
           have hmem : (nm, sh) ∈ vs := List.mem_of_getElem? hvi
-          have hpay := hp _ rfl nm sh hmem (k, x) (by simp) (Tmtail ext kvs' ++ 0x7d :: rest) (pos + 1 + (quote k).length + 1)
+          have hnm : k = nm := by
+            have h1 := nameIndex_get (variantNames vs) k i hni
+            simp only [variantNames, List.getElem?_map, hvi, Option.map_some, Option.some.injEq] at h1
+            exact h1.symm
+          subst hnm
+          have hpay := hp k x kvs' rfl sh hmem (Tmtail ext kvs' ++ 0x7d :: rest) (pos + 1 + (quote k).length + 1)
             (sepOK_mtail ext kvs' rest)
-          simp only at hpay
           cases kvs' with
           | nil =>
             have hfv : FromValue.fromValue cfg' ext' (.enum_ vs) (.obj [(k, x)]) =
                 (payloadFV cfg' ext' sh x).map (.variant i) := by
               simp only [FromValue.fromValue, variantDe_spec, hni, hvi, Nat.zero_add]
-              have hnm : nm = k := by
-                have h1 := nameIndex_get (variantNames vs) k i hni
-                simp only [variantNames, List.getElem?_map, hvi, Option.map_some, Option.some.injEq] at h1
-                exact h1
-              subst hnm
-              rw [hex nm x rfl sh hmem]
+              rw [hex k x rfl sh hmem]
             rw [hfv]
             cases hpv : payloadFV cfg' ext' sh x with
             | error e =>
